@@ -77,6 +77,11 @@ theorem jobMoves_level {s0 : Sys} {a : Action} (hnk : ∀ t, a ≠ .kill t) {o o
       have hle := (sync_spec sp jo sp (CreatePhase.refl _)).2
       refine (ih j jo h1 rfl).trans ⟨rfl, rfl, rfl, rfl, fun _ => rfl, id, hle.startTime, ?_⟩
       exact hle.names
+    | ctlStatusOn jo sp rv0 rv _ hc hf _ =>
+      cases h2
+      have hle := (sync_spec sp jo sp (CreatePhase.refl _)).2
+      refine (ih j _ h1 rfl).trans ⟨rfl, rfl, rfl, rfl, fun _ => rfl, id, hle.startTime, ?_⟩
+      exact hle.names
 
 /-- **the level is kept by every pass**, whatever faults hit it and whatever it returns: in a state
 satisfying the base invariant (every reachable state does: `base_of_reach`) -/
